@@ -145,6 +145,8 @@ def table():
     q("chem_mass_fractional")(lambda pp, a, x: pp.chem_mass(x["fraccomp"]))
     q("condense_to_mass_mods_precise")(lambda pp, a, x: pp.condense_to_mass_mods(a, include_plus=True, precision=3))
     q("create_multi_annotation")(lambda pp, a, x: pp.create_multi_annotation([a] + x["chains"], x["links"]))
+    # a text is immutable, so with a text add_mods is a function of (text, dictionary): the dictionary is only read
+    q("add_mods_text_dict")(lambda pp, a, x: pp.add_mods("PEPTIDE", x["moddict"]))
     q("parse_text")(lambda pp, a, x: pp.parse("[Acetyl]-PEP[1]TIDE/2"))
     # ------------------------------------------------------------------ queries whose arguments are immutable texts:
     # their answers can only depend on hidden process-wide state (caches, lazily completed tables)
@@ -197,6 +199,7 @@ def aux(pp):
         "staticlist": [Mod("[Oxidation]@M", 1)], "rawmods": ["Oxidation", 1.5, Mod("Acetyl", 1)],
         "internaldict": {0: [Mod("Phospho", 1)]},
         "intervallist": [pp.Interval(1, 3, False, [Mod("Phospho", 1)])],
+        "moddict": {"nterm": "Acetyl", 0: "Oxidation", 3: [1.5], "charge": 2},
         "chains": [pp.parse("TIDE[1]")], "links": [True],
         "fraccomp": {"C": 2.123456, "H": 4.5, "O": 1, "e": -0.25},
         "enzymes": ["trypsin/P", "asp-n"], "config": pp.EnzymeConfig(regex=["lys-c", "(?<=D)"]),
